@@ -1,6 +1,9 @@
 #pragma once
+/* shim: the subset of talloc used by the units under verification (allocator itself is a harness stub) */
 #include <stddef.h>
 void *_talloc_zero(const void *ctx, size_t size, const char *name);
 int talloc_free(void *p);
-#define talloc_zero_size(ctx, size) _talloc_zero(ctx, size, __location__)
-#define __location__ "x"
+#define talloc_zero_size(ctx, size) _talloc_zero(ctx, size, "x")
+#define talloc_zero(ctx, type) ((type *)_talloc_zero(ctx, sizeof(type), #type))
+#define talloc(ctx, type) ((type *)_talloc_zero(ctx, sizeof(type), #type))
+#define talloc_size(ctx, size) _talloc_zero(ctx, size, "x")
